@@ -80,6 +80,14 @@ fn msgpack_items(rng: &mut Rng) -> Vec<u8> {
     }
 }
 
+/// JSON object keys (always strings on the wire; the key deserializer parses numbers and bools
+/// out of them). serde_json 1.0.117 panics on a key starting with a non-ASCII char where a bool
+/// key is expected - for the twin as well, which the differential treats as "no verdict".
+const JSON_KEYS: &[&str] = &[
+    "\"{N}\"", "\" {N}\"", "\"+{N}\"", "\"\"", "\"true\"", "\"false\"", "\"True\"", "\"tru\"", "\"ß\"", "\"trüe\"", "\"é\"", "\"\\u00df\"",
+    "\" a \"", "\"abc-1\"", "\"AB-12\"", "\"abba\"", "\"-0\"", "\"1e3\"", "\"0x10\"", "\"1.0\"", "\"\\u0031\"", "\"null\"",
+];
+
 fn subst(t: &str, rng: &mut Rng, name: &str) -> String {
     let mut out = t.to_string();
     while out.contains("{N}") {
@@ -101,6 +109,12 @@ pub fn handcrafted(rng: &mut Rng, fmt: Format, shape: ShapeId, name: &str) -> Ve
             match shape {
                 ShapeId::VecOf => format!("[{}]", items.join(",")).into_bytes(),
                 ShapeId::RecOf => format!("{{\"id\":1,\"val\":{},\"note\":\"n\"}}", items[0]).into_bytes(),
+                ShapeId::MapKey => {
+                    let n = rng.range_usize(1, 3);
+                    let entries: Vec<String> = (0..n).map(|i| { let t: &str = *rng.pick(JSON_KEYS); format!("{}:{}", subst(t, rng, name), i) }).collect();
+                    format!("{{{}}}", entries.join(",")).into_bytes()
+                }
+                ShapeId::MapVal => format!("{{\"k0\":{},\"k1\":{}}}", items[0], { let t: &str = *rng.pick(JSON); subst(t, rng, name) }).into_bytes(),
                 _ => items[0].clone().into_bytes(),
             }
         }
